@@ -44,6 +44,16 @@ def judge(ctx, m, C, sub, case, h, v, r, s, tag):
     exp = expected(C, z, v, r, s)
     try:
         got = tuple(m.ecdsa_raw_recover(h, (v, r, s)))
+        if sub == "real":
+            try:
+                got_l = tuple(m.ecdsa_raw_recover(bytearray(h), [v, r, s]))   # list triple, mutable hash
+            except TypeError:
+                got_l = got                                                    # a stricter type gate is legitimate
+            except ValueError as e2:
+                got_l = ("raised", str(e2))
+            if got_l != got:
+                ctx.violation(sub, "container_type", case,
+                              f"recover with a list triple / bytearray hash gives {got_l}, with a tuple / bytes {got}")
         raised = None
     except ValueError as e:
         got, raised = None, e
